@@ -26,11 +26,13 @@ const (
 	OpClose
 	OpBrokerOn
 	OpBrokerOff
-	OpArmCompose  // next ComposeFrom returns an error
-	OpArmGateable // next ComposeFrom returns a Gateable composite
-	OpArmSend     // next Sender.Send returns an error
-	OpSetExp      // assign Filter.Expiration on the live filter (Tick field: 0 -> 0 (default 10s), 1 -> E/2, 2 -> E, 3 -> 2E)
-	OpArmNil      // next ComposeFrom returns a nil payload (a composite that carries everything in its event type)
+	OpArmCompose      // next ComposeFrom returns an error
+	OpArmGateable     // next ComposeFrom returns a Gateable composite
+	OpArmSend         // next Sender.Send returns an error
+	OpSetExp          // assign Filter.Expiration on the live filter (Tick field: 0 -> 0 (default 10s), 1 -> E/2, 2 -> E, 3 -> 2E)
+	OpArmNil          // next ComposeFrom returns a nil payload (a composite that carries everything in its event type)
+	OpArmGateableNoID // next ComposeFrom returns a Gateable composite whose GetID() is ""
+	OpArmSendWarn     // next Sender.Send returns a nil error together with a Status that carries warnings and no completion
 )
 
 // Tick sizes are expressed relative to the expiration E.
@@ -76,6 +78,10 @@ func (o Op) String() string {
 		return "armSendErr"
 	case OpArmNil:
 		return "armNilPayloadComposite"
+	case OpArmGateableNoID:
+		return "armGateableCompositeWithoutID"
+	case OpArmSendWarn:
+		return "armSendWarningsWithoutError"
 	case OpSetExp:
 		return [...]string{"setExp(0=default)", "setExp(E/2)", "setExp(E)", "setExp(2E)"}[o.Tick%4]
 	}
@@ -86,11 +92,12 @@ type Config struct {
 	DefaultExpiration bool // leave Filter.Expiration zero (10s default)
 	BrokerInit        bool
 	HugeExp           bool // Expiration = the largest Duration ("never expire"); ticks stay relative to one second
+	ViaController     bool // Close is issued through one long-lived eventlogger.NodeController wrapped around the filter
 }
 
 func Describe(cfg Config, ops []Op) string {
 	var sb strings.Builder
-	fmt.Fprintf(&sb, "cfg{defaultExp=%v broker=%v hugeExp=%v}", cfg.DefaultExpiration, cfg.BrokerInit, cfg.HugeExp)
+	fmt.Fprintf(&sb, "cfg{defaultExp=%v broker=%v hugeExp=%v closeViaController=%v}", cfg.DefaultExpiration, cfg.BrokerInit, cfg.HugeExp, cfg.ViaController)
 	for _, o := range ops {
 		sb.WriteByte(' ')
 		sb.WriteString(o.String())
@@ -139,14 +146,16 @@ type Obs struct {
 const ProbeTokBase = 1 << 20
 
 type rec struct {
-	composes    []ComposeCall
-	sends       []SendCall
-	armCompose  bool
-	armGateable bool
-	armNil      bool
-	lastToks    []int // argument of the most recent ComposeFrom call
-	lastNil     bool  // ... which returned a nil payload
-	armSend     bool
+	composes        []ComposeCall
+	sends           []SendCall
+	armCompose      bool
+	armGateable     bool
+	armNil          bool
+	armGateableNoID bool
+	armSendWarn     bool
+	lastToks        []int // argument of the most recent ComposeFrom call
+	lastNil         bool  // ... which returned a nil payload
+	armSend         bool
 }
 
 // ev is the harness's Gateable payload.
@@ -182,6 +191,11 @@ func (e *ev) ComposeFrom(events []*eventlogger.Event) (eventlogger.EventType, in
 		c.Gateable = true
 		r.composes = append(r.composes, c)
 		return "composite", &ev{id: "composite", r: r, tok: -2}, nil
+	case r.armGateableNoID:
+		r.armGateableNoID = false
+		c.Gateable = true
+		r.composes = append(r.composes, c)
+		return "composite", &ev{id: "", r: r, tok: -2}, nil
 	}
 	r.composes = append(r.composes, c)
 	r.lastToks, r.lastNil = append([]int(nil), c.Toks...), false
@@ -216,6 +230,11 @@ func (s *sender) Send(_ context.Context, _ eventlogger.EventType, payload interf
 		return eventlogger.Status{}, errors.New("harness: armed send failure")
 	}
 	s.r.sends = append(s.r.sends, c)
+	if s.r.armSendWarn {
+		s.r.armSendWarn = false
+		// what a Broker without thresholds returns when a downstream node failed: warnings, nothing complete, no error
+		return eventlogger.Status{Warnings: []error{errors.New("harness: downstream node failed")}}, nil
+	}
 	return eventlogger.Status{}, nil
 }
 
@@ -243,6 +262,7 @@ func Run(cfg Config, ops []Op) *Obs {
 	if cfg.BrokerInit {
 		f.Broker = snd
 	}
+	nc := eventlogger.NewNodeController(f)
 	o := &Obs{Cfg: cfg, Exp: exp}
 	curExp := exp
 	if cfg.HugeExp {
@@ -295,7 +315,11 @@ func Run(cfg Config, ops []Op) *Obs {
 		case OpFlushAll:
 			oo.Err = f.FlushAll(ctx)
 		case OpClose:
-			oo.Err = f.Close(ctx)
+			if cfg.ViaController {
+				oo.Err = nc.Close(ctx)
+			} else {
+				oo.Err = f.Close(ctx)
+			}
 		case OpBrokerOn:
 			f.Broker = snd
 		case OpBrokerOff:
@@ -308,6 +332,10 @@ func Run(cfg Config, ops []Op) *Obs {
 			r.armSend = true
 		case OpArmNil:
 			r.armNil = true
+		case OpArmGateableNoID:
+			r.armGateableNoID = true
+		case OpArmSendWarn:
+			r.armSendWarn = true
 		case OpSetExp:
 			switch op.Tick % 4 {
 			case 0:
@@ -324,7 +352,7 @@ func Run(cfg Config, ops []Op) *Obs {
 		o.Ops = append(o.Ops, oo)
 	}
 	// final probe: clock frozen, recording sender, no armed failures
-	r.armCompose, r.armGateable, r.armSend, r.armNil = false, false, false, false
+	r.armCompose, r.armGateable, r.armSend, r.armNil, r.armGateableNoID, r.armSendWarn = false, false, false, false, false, false
 	r.composes, r.sends = nil, nil
 	f.Broker = snd
 	if err := f.FlushAll(ctx); err != nil {
